@@ -627,7 +627,7 @@ def run_receivers(ctx):
             ctx.diverge("threads:receivers", dict(inp, op=mline[:300]), m[:300], expect[:300])
 
 
-def mixed_run(stream_chunks, payloads, keys, schedule, accepts):
+def mixed_run(stream_chunks, payloads, keys, schedule, accepts, ops=None):
     """thread 0 receives (and so answers the pings in the stream); threads 1.. send."""
     import websocket
     b = Baton()
@@ -645,10 +645,14 @@ def mixed_run(stream_chunks, payloads, keys, schedule, accepts):
 
         def rec_key(n):
             import threading
+            # the key is drawn inside format(), BEFORE the send lock is taken: a yield point of its own (a frame object
+            # shared between calls can be rewritten by another thread right here)
+            b.yield_point("key")
             k = orig(n)
             drawn.append(k)
             t = b.by_ident.get(threading.get_ident())
             by_thread.setdefault(t.tid if t is not None else -1, []).append(k)
+            b.yield_point("key-drawn")
             return k
         ws.get_mask_key = rec_key
         got = []
@@ -660,7 +664,9 @@ def mixed_run(stream_chunks, payloads, keys, schedule, accepts):
                 got.append("X:" + common.canon_exc(e))
         b.spawn(0, reader)
         for i, p in enumerate(payloads):
-            b.spawn(i + 1, (lambda p=p: ws.send_binary(p)))
+            # a sender: a data frame, or the application's own keepalive ping / heartbeat pong (`ops[i]`)
+            op = (ops or {}).get(i, 2)
+            b.spawn(i + 1, (lambda p=p, op=op: ws.send_binary(p) if op == 2 else ws.ping(p) if op == 9 else ws.pong(p)))
         eff = b.run(schedule, prestart=False)
     # the steps of the SEND side: the yield points of the send lock and the transport writes
     send_steps = [tid for tid, at, lk in b.steps if at == "send" or (at in ("acquire", "release", "released") and lk is ws.lock)]
@@ -676,6 +682,13 @@ def run_mixed(ctx):
     for it in range(n):
         ns = rnd.randint(1, 2)
         payloads = [rx.payload(rnd, rnd.choice([1, 5, 20, 126, 300]), "bin") for _ in range(ns)]
+        # every third run: the senders are the application's own control frames (ws.ping / ws.pong from another thread,
+        # as a keepalive does) — short payloads, different from the server's pings
+        sops = {}
+        if it % 3 == 2:
+            for i in range(ns):
+                sops[i] = rnd.choice([9, 10])
+                payloads[i] = bytes([0x41 + i]) * rnd.choice([0, 3, 14, 125])
         pings = [bytes([0x70 + j]) * rnd.choice([0, 1, 30, 125]) for j in range(rnd.randint(1, 3))]
         frames = [F(9, p) for p in pings] + [F(2, b"M")]
         stream = b"".join(f.enc() for f in frames)
@@ -688,13 +701,13 @@ def run_mixed(ctx):
             sched = []
             while len(sched) < 200:
                 sched += [rnd.randrange(ns + 1)] * rnd.randint(1, 12)
-        wire, eff, got, drawn = mixed_run(chunks, payloads, keys, sched, acc)
+        wire, eff, got, drawn = mixed_run(chunks, payloads, keys, sched, acc, ops=sops)
         # (C) co-simulation with the Lean programs model (C12_programs): the receiving thread is a thread whose program is the
         # pongs, in the order of the pings; only the steps taken at send-side yield points count (its reads are not steps of
         # the send-side model)
         msched, by_thread = mixed_run.last
         progs = [[simnet.srv_frame(10, p, 1, 0, k) for p, k in zip(pings, by_thread.get(0, []))]] + \
-                [[simnet.srv_frame(2, p, 1, 0, k)] for i, p in enumerate(payloads) for k in by_thread.get(i + 1, [])[:1]]
+                [[simnet.srv_frame(sops.get(i, 2), p, 1, 0, k)] for i, p in enumerate(payloads) for k in by_thread.get(i + 1, [])[:1]]
         if len(progs) == ns + 1 and len(progs[0]) == len(pings):
             cos.append(("m-threads-prog " + ".".join(",".join(f.hex() for f in fs) or "-" for fs in progs) + " " +
                         (".".join(map(str, msched)) or "-") + " " + ".".join(map(str, acc)), common.summarize(wire),
@@ -707,7 +720,7 @@ def run_mixed(ctx):
                "accepts": acc, "schedule": eff[:200]}
         # whole frames: each sender's frame and one pong per ping, every one under one of the drawn keys
         rest, nframes, ok = wire, 0, True
-        want = sorted([(2, p) for p in payloads] + [(10, p) for p in pings])
+        want = sorted([(sops.get(i, 2), p) for i, p in enumerate(payloads)] + [(10, p) for p in pings])
         seen = []
         while rest:
             if len(rest) < 2:
